@@ -863,6 +863,21 @@ pub fn c16_quota_scn(name: &str) -> ChatScn {
     s
 }
 
+/// One JOIN naming the same new channel twice (and lists mixing new, existing and repeated
+/// names): one channel is born, with the joiner as founder and operator.
+pub fn c16_dup_scn(name: &str) -> ChatScn {
+    let mut s = c16_scn(name, false);
+    s.alphabet_for.clear();
+    for slot in 0..2 {
+        for t in ["JOIN #x,#x", "JOIN #x,#y,#x", "JOIN #x", "PART #x", "PART #x,#x", "QUIT"] {
+            s.alphabet_for.push((slot, t));
+        }
+    }
+    s.invariants = vec!["empty-channel", "rank-set", "ban-info", "membership-symmetry", "dangling-member"];
+    s.goals = vec!["created", "destroyed"];
+    s
+}
+
 /// A channel that comes into existence is indistinguishable from a first
 /// creation: no topic, flags, key, limit, lists; the joiner founder+operator.
 fn c16_fresh(_scn: &ChatScn, pre: &View, obs: &StepObs, post: &View, goals: &mut BTreeSet<String>) -> Vec<Finding> {
@@ -1135,6 +1150,7 @@ pub fn plan(property: &str, quick: bool) -> Plan {
             parts: vec![
                 Part::Bfs(Box::new(c16_scn("c16-lifecycle", !quick)), lim(if quick { 7 } else { 7 }, 3_000_000, t(30.0, 900.0))),
                 Part::Bfs(Box::new(c16_quota_scn("c16-quota")), lim(if quick { 5 } else { 7 }, 1_000_000, t(10.0, 300.0))),
+                Part::Bfs(Box::new(c16_dup_scn("c16-repeated-names")), lim(if quick { 4 } else { 6 }, 1_000_000, t(10.0, 300.0))),
                 Part::Custom("fun:c16-lattice".into(), Box::new(move || c16_lattice(quick))),
             ],
         },
@@ -1158,6 +1174,7 @@ pub fn scenarios(property: &str) -> Vec<Box<dyn Scenario>> {
             "C16" => {
                 v.push(Box::new(c16_scn("c16-lifecycle", full)));
                 v.push(Box::new(c16_quota_scn("c16-quota")));
+                v.push(Box::new(c16_dup_scn("c16-repeated-names")));
             }
             _ => {}
         }
